@@ -2,6 +2,7 @@ package main
 
 import (
 	"fmt"
+	"strings"
 
 	"golang.org/x/tools/go/ssa"
 )
@@ -35,4 +36,27 @@ func (e *Engine) repInvAtCall(s *State, fr *Frame, c *FuncContract, key string, 
 		s.addObligation("requires", name, r.Tag, site.Pos(), t, r.Src)
 		s.assume(t)
 	}
+}
+
+// atHavoc: does the contract of the frame's function say "at <anchor> havoc" (or callee#* havoc)?
+func (e *Engine) atHavoc(fr *Frame, anchor string) bool {
+	c := fr.contract
+	if c == nil {
+		return false
+	}
+	short := anchor
+	if k := strings.Index(anchor, "#"); k >= 0 {
+		short = anchor[:k]
+	}
+	for _, at := range c.Ats {
+		if at.Kind == "havoc" && (at.Anchor == anchor || at.Anchor == short+"#*") {
+			return true
+		}
+	}
+	return false
+}
+
+// havocContract: an empty contract; modularCall with it havocs the callee's computed write set and returns fresh results.
+func havocContract(key string) *FuncContract {
+	return &FuncContract{Key: key, Loops: map[int]*LoopContract{}, Nullable: map[string]bool{}, Flags: map[string]string{"modular": "1", "site_havoc": "1"}}
 }
